@@ -160,10 +160,15 @@ func (r *vf5Run) callbacks() Callbacks {
 					tag = "*"
 				}
 			case CodeRej:
-				// rejected packet: code-id-declared length, and the declared length must be the real one
+				// Rejected-Packet: code, id, the Length field the peer sent (must be kept), and how much of the
+				// packet is quoted - everything, or (RFC 1661 5.6 truncation to the MRU) at most 1488 octets
 				tag = "?" + tag
-				if len(data) >= 4 && int(data[2])<<8|int(data[3]) == len(data) {
-					tag = fmt.Sprintf("%d-%d-%d", data[0], data[1], len(data)-4)
+				if len(data) >= 4 {
+					q := len(data)
+					if q > 1488 {
+						q = 1488
+					}
+					tag = fmt.Sprintf("%d-%d-%d-%d", data[0], data[1], (int(data[2])<<8|int(data[3]))-4, q)
 				}
 			}
 			r.s.add(fmt.Sprintf("%s.%d.%s", n, id, tag), true)
@@ -350,8 +355,13 @@ func (r *vf5Run) resolve(op string) (vf5Op, bool) {
 	case "p":
 		id = last - 1
 	default:
-		n, _ := strconv.Atoi(p[1])
-		id = uint8(n)
+		if strings.HasPrefix(p[1], "x") { // lastReqID with exactly the bits of the mask flipped
+			k, _ := strconv.Atoi(p[1][1:])
+			id = last ^ uint8(k)
+		} else {
+			n, _ := strconv.Atoi(p[1])
+			id = uint8(n)
+		}
 	}
 	var data []byte
 	if len(p) == 5 {
